@@ -175,8 +175,9 @@ func (ed *errDisc) siteName(c ssa.CallInstruction) string {
 // aliasSet: values that carry the same error as e within the function
 // (phis, loads of variables it was stored to, wrap-call results).
 type errAliases struct {
-	vals  map[ssa.Value]bool
-	addrs map[ssa.Value]bool // allocs / freevars the error was stored to
+	returned bool
+	vals     map[ssa.Value]bool
+	addrs    map[ssa.Value]bool // allocs / freevars the error was stored to
 }
 
 func isLoggerCall(cc *ssa.CallCommon) bool {
@@ -225,6 +226,12 @@ func (ed *errDisc) aliases(e ssa.Value) *errAliases {
 				}
 				switch a := x.Addr.(type) {
 				case *ssa.Alloc:
+					if resultSlot(a) {
+						// spilled function result: the store is the return of this
+						// value; do not alias every later load of the slot
+						al.returned = true
+						continue
+					}
 					al.addrs[a] = true
 					for _, ld := range loadsOfAddr(a) {
 						add(ld)
@@ -394,6 +401,7 @@ var toleratedSentinels = []struct{ calleeSuffix, sentinel, reason string }{
 	{"DeleteNestedBucket", "walletdb.ErrBucketNotFound", "deleting a bucket that never existed is the intended no-op"},
 	{"DeleteTopLevelBucket", "walletdb.ErrBucketNotFound", "deleting a bucket that never existed is the intended no-op"},
 	{"ImportScript", "ErrDuplicateAddress", "the duplicate test precedes every write, so no write failed"},
+	{"walletdb.Update", "walletdb.ErrDryRunRollBack", "the transaction closure returns this sentinel on purpose to force the rollback of a dry run; a real write failure is a different error and still propagates"},
 	{"birthdaySanityCheck", "ErrBirthdayBlockNotSet", "no birthday block recorded yet: the sanity check returns before any write and the sync proceeds by design"},
 }
 
@@ -428,6 +436,7 @@ func (ed *errDisc) checkSite(c *ssa.Call) errSiteResult {
 	al := ed.aliases(e)
 	fnHasErr := errResultIndex(fn.Signature) >= 0
 	var propagates, escapes, logged bool
+	propagates = al.returned
 	type chk struct {
 		iff        *ssa.If
 		nonNilSucc int
@@ -570,7 +579,7 @@ func (ed *errDisc) checkSite(c *ssa.Call) errSiteResult {
 				if fei >= len(r.Results) {
 					return false
 				}
-				op := resolvePhi(r.Results[fei], r.Block(), via)
+				op := resolvePhi(effectiveResult(r, fei), r.Block(), via)
 				if ed.derivesFromAlias(op, al) {
 					return false
 				}
